@@ -17,7 +17,7 @@
    NOT PROVED: that the other parts of wf_lp survive the renaming (the two theorems are composed per instance: the check
    evaluates wf_lpb on the repaired problem), the byte level below lines (line reader chunks of 131069 bytes, .gz/.bz2), and that the
    fuel of the reader model always suffices (it does on every written file by the theorem). *)
-From QSX Require Import LP.User IO.Num IO.NumSound IO.Bounds IO.Equiv IO.LpWrite IO.LpRead IO.LpTok IO.LpExpr IO.LpRows IO.LpBounds IO.LpFinish IO.LpRoundtrip IO.LpNames.
+From QSX Require Import LP.User IO.Num IO.NumSound IO.Bounds IO.Equiv IO.LpWrite IO.LpRead IO.LpTok IO.LpExpr IO.LpRows IO.LpBounds IO.LpFinish IO.LpRoundtrip IO.LpNames IO.LpBytes.
 From Coq Require Import List QArith.
 Import ListNotations.
 Local Open Scope Q_scope.
@@ -111,3 +111,11 @@ Print Assumptions C08_wf_test_sound.
 (* the hypotheses of C08_lp_roundtrip are satisfiable (ranged row, keyword as column name, integer column, empty row) *)
 Example C08_wf_satisfiable : exists M P, 0 < M /\ wf_lp M P.
 Proof. eexists 1000, _. split; [reflexivity|]. exact (proj1 wf_lp_example). Qed.
+
+(* the same on the bytes of the file: the lines printed with "%s\n", split again the way fgets does with the reader's
+   line buffer, give the same result (the lines of the file have no newline of their own and fit the buffer) *)
+Theorem C08_lp_roundtrip_bytes :
+  forall M P, 0 < M -> wf_lp M P -> Forall line_ok (write_lp M P) ->
+  exists P', read_lp true M (split_lines (file_bytes (write_lp M P))) = Some P' /\ equiv_by_name (to_nlp P) (to_nlp P') = true.
+Proof. exact lp_roundtrip_bytes. Qed.
+Print Assumptions C08_lp_roundtrip_bytes.
